@@ -59,6 +59,8 @@ func c06Lanes(c *Ctx, W int) {
 	}
 	r.Fn(ana.ShortFunc(inFn))
 	r.Fn(ana.ShortFunc(outFn))
+	// decided once, before the lanes are interpreted in parallel: building terms is not safe for concurrent use
+	inBit, outBit := laneBitForm(c, inFn), laneBitForm(c, outFn)
 	st, _ := c.P.Pkg("pkg/curl").Pkg.Scope().Lookup("Curl").Type().Underlying().(*types.Struct)
 	if st == nil || st.NumFields() != 3 {
 		r.Undec("C06.lane-noninterference.anchor", "", "Curl struct shape changed")
@@ -106,7 +108,7 @@ func c06Lanes(c *Ctx, W int) {
 		for _, e := range src.A.Elems {
 			e.(*bitdom.BV).Signed = true
 		}
-		ex, err := in.Call(inFn, laneArgs(inFn, W, &bitdom.Ptr{Cell: &bitdom.Cell{V: s}}, src, idx, laneBitForm(c, inFn)))
+		ex, err := in.Call(inFn, laneArgs(inFn, W, &bitdom.Ptr{Cell: &bitdom.Cell{V: s}}, src, idx, inBit))
 		if err != nil || ex.Panic {
 			note("in(idx=%d): %v", idx, err)
 			return
@@ -182,7 +184,7 @@ func c06Lanes(c *Ctx, W int) {
 		for _, e := range dst.A.Elems {
 			e.(*bitdom.BV).Signed = true
 		}
-		ex, err := in.Call(outFn, laneArgs(outFn, W, &bitdom.Ptr{Cell: &bitdom.Cell{V: s}}, dst, idx, laneBitForm(c, outFn)))
+		ex, err := in.Call(outFn, laneArgs(outFn, W, &bitdom.Ptr{Cell: &bitdom.Cell{V: s}}, dst, idx, outBit))
 		if err != nil || ex.Panic {
 			note("out(idx=%d): %v", idx, err)
 			return
